@@ -171,7 +171,7 @@ def load_pysnmp(texts, scratch, load_order=None, load_texts=True):
         try:
             (mb.load_modules if hasattr(mb, 'load_modules') else mb.loadModules)(mod)
         except Exception as exc:
-            errors[mod] = '%s: %s' % (type(exc).__name__, str(exc)[:300])
+            errors[mod] = '%s: ...%s' % (type(exc).__name__, ' '.join(str(exc).split())[-300:])
     for mod in texts:
         syms[mod] = dict(mb.mibSymbols.get(mod, {}))
     sys.dont_write_bytecode = True
